@@ -100,6 +100,18 @@ def _iter_desc(I, st, a, akey):
         v = st.m.get(a.tgt)
     if v is not None and v.extra and isinstance(v.extra, tuple) and v.extra[0] == 'iter':
         return v.extra
+    # a Range<T> value used as an iterator
+    k = akey if not (a is not None and a.k == 'ref' and a.tgt is not None) else a.tgt
+    if k is not None:
+        s_ = st.m.get((k[0], k[1] + (0,))); e_ = st.m.get((k[0], k[1] + (1,)))
+        base = st.m.get(k)
+        if s_ is not None and e_ is not None and s_.k == 'int' and e_.k == 'int' and base is not None and base.extra and base.extra[0] == 'adt' and 'Range' in base.extra[1]:
+            item = mk_int(s_.lo, max(s_.lo, e_.hi - 1), s_.ty)
+            n_hi = max(0, e_.hi - s_.lo)
+            n_lo = max(0, e_.lo - s_.hi)
+            if e_.lin and e_.lin[0] == s_.vid: n_lo = n_hi = max(0, e_.lin[1])
+            elif e_.lin and s_.lin and e_.lin[0] == s_.lin[0]: n_lo = n_hi = max(0, e_.lin[1] - s_.lin[1])
+            return ('iter', 'range', n_lo, n_hi, None, item)
     return None
 
 
